@@ -98,11 +98,13 @@ def opModule (j : Json) : Except String Json := do
   let msgs ← (← getArrL j "messages").mapM fun mj => do
     let path ← names mj "path"
     let fields ← (← getArrL mj "fields").mapM (fieldOfJson collisions)
-    pure (path, fields)
+    let nested := match names mj "nested" with | .ok v => v | .error _ => []
+    let status := match getBool mj "status" with | .ok b => b | .error _ => false
+    pure (path, fields, nested, status)
   let enums ← (← getArrL j "enums").mapM fun t => do (← t.getArr?).toList.mapM fun v => do pure (← v.getStr?).toList
   let m : Model.Types.Module := ⟨pkg, types, order⟩
   -- names bound by the module's import statements
-  let foreign := (msgs.flatMap fun (_, fs) => fs.flatMap fieldTargets).filter fun t =>
+  let foreign := (msgs.flatMap fun (_, fs, _, _) => fs.flatMap fieldTargets).filter fun t =>
     ¬ (t.addr.package = pkg ∧ t.addr.module = modName)
   let imports := foreign.filterMap fun t => (importName version t.addr).map fun n => (n, t.addr.package)
   -- `import proto as <p>` is rebound when a later `from … import <module>` binds the same name
@@ -110,7 +112,7 @@ def opModule (j : Json) : Except String Json := do
   let mut firstErr : Option String := if imports.any (fun x => x.1 == p) then some "AttributeError" else none
   let mut lateErr : Option String := none
   let mut out : List Json := []
-  for (path, fields) in msgs do
+  for (path, fields, nested, status) in msgs do
     let ctx : Addr := ⟨pkg, modName, path.dropLast, path.getLastD [], true, decide (modName ∈ collisions)⟩
     let mut before : List N := []
     let mut fjs : List Json := []
@@ -139,7 +141,12 @@ def opModule (j : Json) : Except String Json := do
       | none => pure ()
       fjs := fjs ++ [fj.1]
       before := before ++ [fieldAttr true f.pbName]
-    out := out ++ [Json.mkObj [("path", jarr (path.map jstr)), ("fields", jarr fjs)]]
+    -- the class body: the last binding of a name wins; proto-plus reads the declarations left, in dict order
+    let attrs := fields.map fun f => fieldAttr true f.pbName
+    let seen := fieldsSeen (classDict nested attrs status)
+    let kept := seen.filterMap fun i => fjs[i]?
+    let lost := (List.range attrs.length).filter (fun i => i ∉ seen) |>.filterMap fun i => attrs[i]?
+    out := out ++ [Json.mkObj [("path", jarr (path.map jstr)), ("fields", jarr kept), ("shadowed", jarr (lost.map jstr))]]
   let imp := match firstErr, lateErr with
     | some e, _ => e
     | none, some e => e
